@@ -29,7 +29,13 @@ def compare(src, filename):
     if info['reads_locals']:
         return None, info
     proj = suppview.project()
-    lv = suppview.lint_view(proj, src, filename)
+    try:
+        lv = suppview.lint_view(proj, src, filename)
+    except Exception as e:
+        hit = core.supp_crash(e)
+        if hit is None:
+            raise
+        return [hit], info      # no diagnostics at all for a valid module
     if lv['E01']:
         return [('lint-E01-on-valid-module', repr(lv['E01']))], info
     read = info['read']
